@@ -328,7 +328,8 @@ bool Plan::DyndepsLoaded(DependencyScan* scan,
                          std::string* err) {
   // Recompute the dirty state of all our direct and indirect dependents now
   // that our dyndep information has been loaded.
-  if (!RefreshDyndepDependents(scan, dyndep_nodes, err))
+  std::set<Edge*> dyndep_walk;
+  if (!RefreshDyndepDependents(scan, dyndep_nodes, &dyndep_walk, err))
     return false;
 
   // We loaded dyndep information for those out_edges of the dyndep nodes that
@@ -359,7 +360,6 @@ bool Plan::DyndepsLoaded(DependencyScan* scan,
   }
 
   // Walk dyndep-discovered portion of the graph to add it to the build plan.
-  std::set<Edge*> dyndep_walk;
   for (std::vector<std::unordered_map<Edge*, Dyndeps>::const_iterator>::iterator
            oei = dyndep_roots.begin();
        oei != dyndep_roots.end(); ++oei) {
@@ -399,6 +399,7 @@ bool Plan::DyndepsLoaded(DependencyScan* scan,
 
 bool Plan::RefreshDyndepDependents(DependencyScan* scan,
                                    const std::vector<Node*>& dyndep_nodes,
+                                   std::set<Edge*>* dyndep_walk,
                                    string* err) {
   // Collect the transitive closure of dependents and mark their edges
   // as not yet visited by RecomputeDirty.
@@ -419,13 +420,15 @@ bool Plan::RefreshDyndepDependents(DependencyScan* scan,
       return false;
 
     // Add any validation nodes found during RecomputeDirty as new top level
-    // targets.
+    // targets.  Record the edges this adds to the plan in the dyndep walk, so
+    // that DyndepsLoaded() schedules those that are ready already.
     for (std::vector<Node*>::iterator v = validation_nodes.begin();
          v != validation_nodes.end(); ++v) {
       if (Edge* in_edge = (*v)->in_edge()) {
-        if (!in_edge->outputs_ready() &&
-            !AddTarget(*v, err)) {
-          return false;
+        if (!in_edge->outputs_ready()) {
+          targets_.push_back(*v);
+          if (!AddSubTarget(*v, NULL, err, dyndep_walk) && !err->empty())
+            return false;
         }
       }
     }
